@@ -463,20 +463,22 @@ func TestC14(t *testing.T) {
 			if cf.netID == config.NETWORK_ID_MAIN_NET {
 				x.rule = "natural-mainnet"
 			}
-			reps := 2
+			reps := r.N(2, 12)
 			if cf.rule == "natural" {
 				reps = 1
 			}
 			okAll := true
-			for i, cs := range genCases(rng, set, foreign, x.m(set), reps) {
-				_, _, fine := x.both(cs.name, cs.entries, nil, i%2 == 0)
-				okAll = okAll && fine
-				if r.Violations() > 8 {
-					break
+			for pass := 0; pass < r.N(1, 4); pass++ {
+				for i, cs := range genCases(rng, set, foreign, x.m(set), reps) {
+					_, _, fine := x.both(cs.name, cs.entries, nil, (i+pass)%2 == 0)
+					okAll = okAll && fine
+					if r.Violations() > 8 {
+						break
+					}
 				}
 			}
 			// hand-overs
-			rounds := r.N(2, 3)
+			rounds := r.N(2, 5)
 			if cf.rule == "natural" {
 				rounds = 1
 			}
@@ -502,7 +504,7 @@ func TestC14(t *testing.T) {
 					r.Sample(map[string]interface{}{"N_old": len(A), "N_new": len(B), "overlap": overlap, "rule": x.rule, "m_old": x.m(A), "m_new": x.m(B)})
 				}
 				// the usual cases under the new set
-				for i, cs := range genCases(rng, B, foreign, x.m(B), 1) {
+				for i, cs := range genCases(rng, B, foreign, x.m(B), r.N(1, 3)) {
 					_, _, fine := x.both(cs.name+"@after-handover", cs.entries, nil, i%2 == 1)
 					if !fine {
 						break
